@@ -45,12 +45,12 @@ def check(ctx):
             i_ty = q.param_index(fn, lambda t: t.startswith("&scale_info::Type<"))
             # the CompactAs insertion may live in a private helper taking `&mut derives`: its effect on the derives is what is compared
             ok = False
-            if d[0] == "mut" and show(d[2]) == "FlatDerivesRegistry::resolve_derives_for_type(P%d,P%d)?" % (i_flat, i_ty) and len(d[3]) == 1:
-                eff = d[3][0]
-                gs = [show(g) for g in eff[-1]]
-                ok = show(("mut", "x", ("lit", "x"), [tuple(list(eff[:-1]) + [[]])])) == "mut['x';%s]" % COMPACT_AS_INSERT \
-                    and len(gs) == 2 and gs[0].startswith("(let TypeDef::Composite($)=P%d.type_def&&CompositeIRKind::could_derive_as_compact(" % i_ty) \
-                    and gs[0].endswith("?))") and gs[1] == "let v1::Some($)=%s" % COMPACT_AS_PATH
+            RES = "FlatDerivesRegistry::resolve_derives_for_type(P%d,P%d)?" % (i_flat, i_ty)
+            # value = if <struct whose kind could derive it> && <a path is configured> { resolved derives + CompactAs } else { resolved derives }
+            if d[0] == "if" and show(d[3]) == RES and show(d[2]) == "mut[%s;%s]" % (RES, COMPACT_AS_INSERT):
+                c = show(d[1])
+                ok = c.startswith("((let TypeDef::Composite($)=P%d.type_def&&CompositeIRKind::could_derive_as_compact(" % i_ty) \
+                    and c.endswith("?))&&let v1::Some($)=%s)" % COMPACT_AS_PATH) and c.count("&&") == 2
             ctx.expect(ok, "C08.2", "ir-derives", site(tirs[0]), "item derives = resolved derives of this type (+ CompactAs iff the struct's kind could derive it; never for enums)",
                        "TypeIR.derives is `%s`" % ds[:400])
         else:
